@@ -307,7 +307,7 @@ def gen_pairs(max_len):
 
 def strategy():
     from hypothesis import strategies as st
-    descs = spans.catalogue(5, min_len=1)
+    descs = spans.catalogue(5, min_len=1) + spans.catalogue_long()
 
     @st.composite
     def cases(draw):
